@@ -35,7 +35,7 @@ RULE = ("each run is a history of 1-6 client operations (get with/without query,
         "unreadable) and the bytes its peer decrypted plus the order of the pin lookup and the "
         "first application send are checked. distinct = distinct (operation, classification, "
         "reader) vectors; non-trivial = at least one changed or unreadable connection occurred")
-PROBES = ["ca_validation_on_as_well", "impostor_connection", "unreadable_connection", "impostor_never_reads",
+PROBES = ["client_used_as_context_manager_in_between", "connection_fails_at_accept_first", "ca_validation_on_as_well", "impostor_connection", "unreadable_connection", "impostor_never_reads",
           "impostor_lazy", "upload_to_impostor", "redirect_hop_to_impostor", "ordering_checked",
           "large_upload", "sql_fault_during_operation", "overlapping_operations_one_endpoint"]
 COMPONENTS = {
@@ -70,7 +70,7 @@ def run_one(ch):
     model = {}
     hist = []
     st = {"imp": 0, "unread": 0, "never": 0, "lazy": 0, "upimp": 0, "redirimp": 0, "order": 0,
-          "large": 0, "sqlfault": 0, "overlap": 0}
+          "large": 0, "sqlfault": 0, "overlap": 0, "ctx": 0, "failonce": 0}
     judged = []
 
     def endpoint(label):
@@ -93,9 +93,24 @@ def run_one(ch):
             hist.append(f"pre-pin {key[0]}:{key[1]} {c}")
         forced_key = None
         for i in range(nops):
-            op = ch.choose("op", 6, [5, 5, 2, 4, 2, 2])
+            op = ch.choose("op", 8, [5, 5, 2, 4, 2, 2, 2, 1])
             if forced_key is not None:
                 op = 0
+            if op == 7:
+                # the client object is used as a context manager in between and used on
+                hist.append("async with client: pass")
+                async with client:
+                    await asyncio.sleep(0)
+                st["ctx"] += 1
+                continue
+            if op == 6:
+                # the next connection to this endpoint fails before the TLS handshake (reset
+                # or close at accept); the operation after that one finds the endpoint up
+                key = endpoint("fo")
+                w.fail_once[key] = ch.pick("fohow", ["rst", "close"])
+                hist.append(f"env: next connection to {key[0]}:{key[1]} is {w.fail_once[key]} at accept")
+                forced_key = key
+                continue
             if op == 5:
                 # two overlapping operations on one endpoint that presents c1 to the first
                 # and c2 to the second connection
@@ -182,6 +197,12 @@ def run_one(ch):
             plan = []      # (key, class)
             cur = key
             pend = dict(model)
+            if w.fail_once.get(key):
+                # this connection dies at accept: the call fails; whatever would be found
+                # behind it (classified below) must not be contacted with request bytes
+                # unless it verifies
+                plan.append((key, "reset"))
+                st["failonce"] += 1
             while True:
                 presented = w.servers[cur].cert
                 if presented in fx.BAD_CERTS:
@@ -202,8 +223,10 @@ def run_one(ch):
                     cur = tgt
                     continue
                 break
-            model.clear()
-            model.update(pend)
+            failing_first = bool(plan and plan[0][1] == "reset")
+            if not failing_first:
+                model.clear()
+                model.update(pend)
             # storage fault at a drawn SQL tick of this operation (pin lookup, trust, ...)
             SEAM.fired = None
             if ch.chance("sqlfault", 0.2):
@@ -221,6 +244,10 @@ def run_one(ch):
             except Exception as e:  # noqa
                 got = ("err", type(e).__name__)
             SEAM.fault_at = None
+            if failing_first:
+                # a retrying implementation may have pinned: continue from the real table
+                model.clear()
+                model.update(read_table(w.db_path))
             if SEAM.fired is not None:
                 st["sqlfault"] += 1
                 hist[-1] += f" [sql fault at {SEAM.fired[2][:30]!r}]"
@@ -299,7 +326,9 @@ def run_one(ch):
                      "upload_to_impostor": "upimp", "redirect_hop_to_impostor": "redirimp",
                      "ordering_checked": "order", "large_upload": "large",
                      "sql_fault_during_operation": "sqlfault",
-                     "overlapping_operations_one_endpoint": "overlap"}.items():
+                     "overlapping_operations_one_endpoint": "overlap",
+                     "client_used_as_context_manager_in_between": "ctx",
+                     "connection_fails_at_accept_first": "failonce"}.items():
         if st[k]:
             res.stats[probe] += 1
     res.stats["operations"] += len(judged)
